@@ -65,6 +65,7 @@ class Gen:
         self.ents = []
         self.used = set()
         self.counter = 0
+        self.seps, self.odd_ws_ids, self.keep = {}, set(), []      # white space chosen per binary node (keep: the nodes stay alive, ids stay unique)
         self.exprs_seen = set()
         self.news_on_line = set()
         self.loop_labels = []
@@ -148,7 +149,19 @@ class Gen:
 
     def build_args(self, depth):
         n = self.r.choice([0, 1, 1, 2, 3])
-        return [self.build_expr(depth, self.r.choice(["int", "str", "int"])) for _ in range(n)]
+        return self.with_sum([self.build_expr(depth, self.r.choice(["int", "str", "int"])) for _ in range(n)])
+
+    def with_sum(self, args):
+        """now and then an argument becomes a sum (so that calls have arguments that are expressions with operators)"""
+        if args and self.r.random() < 0.35:
+            i = self.r.randrange(len(args))
+            if args[i][0] in ("lit", "id", "call"):
+                args[i] = self.bin_("+", args[i], ("lit", str(self.r.randint(2, 9))), False)
+        for a in args:
+            # (marked here, before anything asks for the text of these nodes)
+            self.odd_ws_ids.update(id(x) for x in self.bin_nodes(a))
+            self.keep.append(a)
+        return args
 
     def bin_(self, op, l, r, paren):
         """a binary node whose operands are parenthesised when they are binary themselves, so that the text
@@ -157,6 +170,26 @@ class Gen:
             return ("bin", x[1], x[2], x[3], True) if x[0] == "bin" else x
         return ("bin", op, wrap(l), wrap(r), paren)
 
+    def bin_nodes(self, e):
+        if e[0] == "bin":
+            return [e] + self.bin_nodes(e[2]) + self.bin_nodes(e[3])
+        if e[0] == "paren":
+            return self.bin_nodes(e[1])
+        return []
+
+    def bin_seps(self, e):
+        """white space around the operator of this node: one blank, now and then several or a line break (more often
+        inside call arguments); decided once per node, so that every text computed for it agrees with what is written"""
+        k = id(e)
+        if k not in self.seps:
+            if self.r.random() < (0.5 if k in self.odd_ws_ids else 0.08):
+                wrap = self.o.eol + "                " if self.o.eol == "\n" else "    "
+                self.seps[k] = self.r.choice([("  ", "  "), (" ", wrap), ("   ", " "), (" ", "  ")])
+            else:
+                self.seps[k] = (" ", " ")
+            self.keep.append(e)
+        return self.seps[k]
+
     def expr_text(self, e):
         t = e[0]
         if t in ("lit", "id"):
@@ -164,7 +197,8 @@ class Gen:
         if t == "paren":
             return "(" + self.expr_text(e[1]) + ")"
         if t == "bin":
-            s = self.expr_text(e[2]) + " " + e[1] + " " + self.expr_text(e[3])
+            sl, sr = self.bin_seps(e)
+            s = self.expr_text(e[2]) + sl + e[1] + sr + self.expr_text(e[3])
             return "(" + s + ")" if e[4] else s
         if t == "call":
             recv = (e[1] + ".") if e[1] else ""
@@ -186,8 +220,9 @@ class Gen:
             if e[4]:
                 w.w("(")
             s = w.pos
+            sl, sr = self.bin_seps(e)
             self.emit_expr(w, e[2])
-            w.w(" " + e[1] + " ")
+            w.w(sl + e[1] + sr)
             self.emit_expr(w, e[3])
             end = w.pos
             lt, rt = self.expr_text(e[2]), self.expr_text(e[3])
@@ -204,6 +239,9 @@ class Gen:
             for i, a in enumerate(e[3]):
                 if i:
                     w.w(", ")
+                # inside an argument the operators of a binary expression may be set off by several blanks or a line
+                # break (a wrapped sum): the argument's text is the source text, white space included
+                self.odd_ws_ids.update(id(x) for x in self.bin_nodes(a))
                 self.emit_expr(w, a)
                 argtexts.append(self.expr_text(a))
             w.w(")")
@@ -451,7 +489,7 @@ class Gen:
 
     def build_args_u(self, depth):
         n = self.r.choice([0, 1, 1, 2, 3])
-        return [self.uniq_expr(min(depth, 1), self.r.choice(["int", "str", "int"])) for _ in range(n)]
+        return self.with_sum([self.uniq_expr(min(depth, 1), self.r.choice(["int", "str", "int"])) for _ in range(n)])
 
     RICH_TYPES = ["java.io.File", "java.util.Date", "java.math.BigDecimal", "Map.Entry", "java.util.List<String>", "int[]", "String[][]",
                   "java.io.File[]", "Outer.Inner", "java.util.Map<String, java.util.List<Integer>>", "char", "byte", "float", "short", "var"]
@@ -525,11 +563,11 @@ class Gen:
     def emit_method(self, w, ind, cls):
         r = self.r
         tags = None
-        nparams = r.choice([0, 1, 2, 3])
+        nparams = r.choice([0, 1, 2, 3, 3, 5, 6, 8])        # lists of five and more: beyond any small fixed capacity
         params = []
         for i in range(nparams):
             params.append((r.choice(PRIM + REFT + ["int[]", "java.util.List<String>"]), self.fresh("p")))
-        throws = r.sample(EXC, r.choice([0, 0, 1, 2]))
+        throws = r.sample(EXC, r.choice([0, 0, 1, 2, 5]))
         if self.o.javadoc and r.random() < 0.5:
             tags = self.emit_javadoc(w, ind, True, [p[1] for p in params], throws)
         s = w.pos
